@@ -682,3 +682,90 @@ pub fn gen_conj_goal(t: &mut Tape, p: &Program) -> Goal {
     let n = 1 + t.choose(2);
     Goal { prefix: vec![Prefix::Exists(vec![0])], body: (0..n).map(|_| Lit::Holds(atom(t))).collect() }
 }
+
+// ---------------------------------------------------------------- shape: several answers over a two-parameter constructor
+//
+// Aggregation of several answers (anti-unification, "can a later answer still invalidate the guidance?") only has
+// something to decide when answers agree in one argument of a constructor and differ in another. Programs: a few
+// traits with 2-4 impls each whose headers are `P<x, y>` patterns (ground, generic, shared parameter, nested), plus
+// unary and nullary headers; goals ask for the whole type, for both arguments, or for one of them.
+
+pub fn gen_pair_program(t: &mut Tape) -> Program {
+    let mut p = Program::default();
+    let n0 = 3 + t.choose(2);
+    for name in NULLARY.iter().take(n0) {
+        p.ctors.push(new_ctor(name, 0));
+    }
+    p.ctors.push(new_ctor("V", 1));
+    p.ctors.push(new_ctor("P", 2));
+    let (v, pp) = (n0, n0 + 1);
+    let nt = 2 + t.choose(2);
+    for name in TRAITS.iter().take(nt) {
+        p.traits.push(new_trait(name, 0, TraitKind::Inductive));
+    }
+    // a helper trait with a few facts, usable in where-clauses
+    for c in 0..n0 {
+        if t.chance(50) {
+            p.impls.push(ImplDef { nparams: 0, head: TRef { tr: nt - 1, args: vec![Ty::Adt(c, vec![])] }, wcs: vec![], positive: true, values: vec![], upstream: false });
+        }
+    }
+    for tr in 0..nt - 1 {
+        let n = 2 + t.choose(3);
+        for _ in 0..n {
+            let mut np = 0usize;
+            let mut arg = |t: &mut Tape, np: &mut usize| -> Ty {
+                match t.choose(8) {
+                    0 | 1 | 2 => Ty::Adt(t.choose(n0), vec![]),
+                    3 | 4 => {
+                        *np += 1;
+                        Ty::Param(*np - 1)
+                    }
+                    5 if *np > 0 => Ty::Param(t.choose(*np)),
+                    6 => Ty::Adt(v, vec![Ty::Adt(t.choose(n0), vec![])]),
+                    _ => {
+                        *np += 1;
+                        Ty::Adt(v, vec![Ty::Param(*np - 1)])
+                    }
+                }
+            };
+            let head = match t.choose(8) {
+                0 => Ty::Adt(t.choose(n0), vec![]),
+                1 => {
+                    let a = arg(t, &mut np);
+                    Ty::Adt(v, vec![a])
+                }
+                _ => {
+                    let a = arg(t, &mut np);
+                    let b = arg(t, &mut np);
+                    Ty::Adt(pp, vec![a, b])
+                }
+            };
+            let mut wcs = vec![];
+            if np > 0 && t.chance(30) {
+                wcs.push(TRef { tr: nt - 1, args: vec![Ty::Param(t.choose(np))] });
+            }
+            p.impls.push(ImplDef { nparams: np, head: TRef { tr, args: vec![head] }, wcs, positive: true, values: vec![], upstream: false });
+        }
+    }
+    p
+}
+
+pub fn gen_pair_goal(t: &mut Tape, p: &Program) -> Goal {
+    let nt = p.traits.len();
+    let pp = p.ctors.iter().position(|c| c.arity == 2).unwrap_or(0);
+    let n0 = p.ctors.iter().filter(|c| c.arity == 0).count();
+    let tr = t.choose(nt - 1);
+    let x = Ty::QVar(0);
+    let y = Ty::QVar(1);
+    let (vars, ty) = match t.choose(6) {
+        0 | 1 => (vec![0], x.clone()),
+        2 | 3 => (vec![0, 1], Ty::Adt(pp, vec![x.clone(), y.clone()])),
+        4 => (vec![0], Ty::Adt(pp, vec![x.clone(), Ty::Adt(t.choose(n0), vec![])])),
+        _ => (vec![0], Ty::Adt(pp, vec![Ty::Adt(t.choose(n0), vec![]), x.clone()])),
+    };
+    let mut body = vec![Lit::Holds(TRef { tr, args: vec![ty] })];
+    if t.chance(20) {
+        body.push(Lit::Holds(TRef { tr: t.choose(nt), args: vec![x.clone()] }));
+    }
+    Goal { prefix: vec![Prefix::Exists(vars)], body }
+}
